@@ -199,7 +199,8 @@ theorem c13_republication_is_current (s : Srv) (hu : UniqueDocs s) (reg name : T
 
 /-! ### the full statement, and the schedule on which it still fails -/
 
-/-- full C13 (kept visible; NOT PROVED — after the two repairs no counterexample is known, see c13_full_holds_bounded in the stream): for every schedule that ends quiescent, every document's last
+/-- full C13 (kept visible as first written; PROVED in Props/C13Full.lean as `c13_full_holds`, for schedules whose registry
+    replies carry dist-tag maps with distinct names — what the code can receive, the map is a `HashMap`): for every schedule that ends quiescent, every document's last
     publication is the diagnosis of its latest text against the final cache -/
 def c13_full : Prop :=
   ∀ (evs : List Ev) (uri : Text) (reg : String), Detect.detect uri = some reg →
